@@ -326,3 +326,92 @@ package compose
 //@     invariant[cover] forall(k string :: in(k, $seen) ==> exists(i int :: 0 <= i && i < len(nextTasks) && nextTasks[i].nodeKey == k))
 //@     invariant[subscribed] forall(k string :: in(k, $seen) ==> in(k, r.chanSubscribeTo))
 //@     invariant[fresh_start] @C05 forall(i int :: 0 <= i && i < len(nextTasks) ==> cpOf(nextTasks[i].ctx) == nil)
+
+//@ func (*runner).restoreTasks
+//@   props C05 C16
+//@   requires r != nil && ctxOK(ctx)
+//@   ensures[err] result1 != nil ==> exists(k string :: in(k, inputs) && !in(k, r.chanSubscribeTo))
+//@   ensures[noerr] (forall(k string :: in(k, inputs) ==> in(k, r.chanSubscribeTo))) ==> result1 == nil
+//@   ensures[len] result1 == nil ==> len(result0) == len(inputs)
+//@   ensures[tasks] result1 == nil ==> forall(i int :: 0 <= i && i < len(result0) ==> result0[i] != nil && in(result0[i].nodeKey, inputs) && result0[i].input == inputs[result0[i].nodeKey] && result0[i].call == r.chanSubscribeTo[result0[i].nodeKey] && result0[i].option == optMap[result0[i].nodeKey] && result0[i].skipPreHandler == skipPreHandler[result0[i].nodeKey] && result0[i].err == nil)
+//@   ensures[cover] result1 == nil ==> forall(k string :: in(k, inputs) ==> exists(i int :: 0 <= i && i < len(result0) && result0[i].nodeKey == k))
+//@   ensures[forward] result1 == nil && cpOf(ctx) != nil ==> forall(i int :: 0 <= i && i < len(result0) ==> cpOf(result0[i].ctx) == (in(result0[i].nodeKey, cpOf(ctx).SubGraphs) ? cpOf(ctx).SubGraphs[result0[i].nodeKey] : nil))
+//@   loop 1:
+//@     modifies fresh()
+//@     invariant[fresh] fresh(ret)
+//@     invariant[len] len(ret) == $n
+//@     invariant[tasks] forall(i int :: 0 <= i && i < len(ret) ==> ret[i] != nil && fresh(ret[i]) && in(ret[i].nodeKey, $seen) && ret[i].input == inputs[ret[i].nodeKey] && ret[i].call == r.chanSubscribeTo[ret[i].nodeKey] && ret[i].option == optMap[ret[i].nodeKey] && ret[i].skipPreHandler == skipPreHandler[ret[i].nodeKey] && ret[i].err == nil)
+//@     invariant[cover] forall(k string :: in(k, $seen) ==> exists(i int :: 0 <= i && i < len(ret) && ret[i].nodeKey == k))
+//@     invariant[subscribed] forall(k string :: in(k, $seen) ==> in(k, r.chanSubscribeTo))
+//@     invariant[forward] cpOf(ctx) != nil ==> forall(i int :: 0 <= i && i < len(ret) ==> cpOf(ret[i].ctx) == (in(ret[i].nodeKey, cpOf(ctx).SubGraphs) ? cpOf(ctx).SubGraphs[ret[i].nodeKey] : nil))
+
+//@ func getCheckPointInfo
+//@   props C06 C16
+//@   ensures[id_from_opts] checkPointID != nil ==> exists(i int :: 0 <= i && i < len(opts) && opts[i].checkPointID == checkPointID)
+//@   ensures[id_none] (forall(i int :: 0 <= i && i < len(opts) ==> opts[i].checkPointID == nil)) ==> checkPointID == nil
+//@   ensures[id_some] (exists(i int :: 0 <= i && i < len(opts) && opts[i].checkPointID != nil)) ==> checkPointID != nil
+//@   loop 1:
+//@     invariant[id_from_opts] checkPointID != nil ==> exists(i int :: 0 <= i && i < $i && opts[i].checkPointID == checkPointID)
+//@     invariant[id_none] (forall(i int :: 0 <= i && i < $i ==> opts[i].checkPointID == nil)) ==> checkPointID == nil
+//@     invariant[id_some] (exists(i int :: 0 <= i && i < $i && opts[i].checkPointID != nil)) ==> checkPointID != nil
+
+//@ func copyItem
+//@   props C01 C19
+//@   ensures[len] len(result) == (n < 2 ? 1 : n) && fresh(result)
+//@   ensures[plain] !is(item, "streamReader") ==> forall(i int :: 0 <= i && i < len(result) ==> result[i] == item)
+//@   ensures[one] n < 2 ==> result[0] == item
+//@   loop 1:
+//@     modifies elems(ret)
+//@   loop 2:
+//@     modifies elems(ret)
+//@     invariant[filled] forall(j int :: 0 <= j && j < $i ==> ret[j] == item)
+
+// ---------------------------------------------------------------------------------------------------
+// stream_reader.go — the type-erased stream interface (C08, C19)
+// ---------------------------------------------------------------------------------------------------
+
+//@ iface (streamReader).copy
+//@   requires n >= 1
+//@   ensures[len] len(result) == n && fresh(result)
+//@   ensures[nonnil] forall(i int :: 0 <= i && i < n ==> result[i] != nil)
+//@   note trusted: every implementation (streamReaderPacker[T]) is checked against this contract separately
+
+//@ func (streamReaderPacker).copy
+//@   props C08 C19
+//@   requires n >= 1 && srp.sr != nil
+//@   ensures[len] len(result) == n && fresh(result)
+//@   ensures[nonnil] forall(i int :: 0 <= i && i < n ==> result[i] != nil)
+//@   loop 1:
+//@     modifies elems(ret)
+//@     invariant[idx] 0 <= i
+//@     invariant[nonnil] forall(j int :: 0 <= j && j < i ==> ret[j] != nil)
+
+//@ spec isSubInt(e error) bool = is(e, "*subGraphInterruptError") && unbox(e, "*subGraphInterruptError") != nil
+
+//@ spec disjointLists(a []string, b []string) bool = arr(a) != arr(b) || arr(a) == 0
+//@ spec sameArray(a []string, b []string) bool = arr(a) == arr(b) && off(a) == off(b) && cap(a) == cap(b)
+
+//@ func (*runner).resolveInterruptCompletedTasks
+//@   props C06
+//@   requires r != nil && subGraphInterrupts != nil && interruptRerunNodes != nil && interruptAfterNodes != nil && interruptRerunNodes != interruptAfterNodes
+//@   requires disjointLists(*interruptRerunNodes, *interruptAfterNodes) && disjointLists(*interruptRerunNodes, r.interruptAfterNodes) && disjointLists(*interruptAfterNodes, r.interruptAfterNodes)
+//@   requires forall(j int :: 0 <= j && j < len(completedTasks) ==> completedTasks[j] != nil)
+//@   modifies map(subGraphInterrupts), *interruptRerunNodes, *interruptAfterNodes, elems(*interruptRerunNodes), elems(*interruptAfterNodes), region("F|compose.internalError|nodePath")
+//@   ensures[plain_error_reported] (exists(j int :: 0 <= j && j < len(completedTasks) && plainError(completedTasks[j].err) && completedTasks[j].err != InterruptAndRerun)) ==> err != nil
+//@   ensures[subgraph_recorded] err == nil ==> forall(j int :: 0 <= j && j < len(completedTasks) && isSubInt(completedTasks[j].err) ==> in(completedTasks[j].nodeKey, subGraphInterrupts))
+//@   ensures[rerun_recorded] err == nil ==> forall(j int :: 0 <= j && j < len(completedTasks) && completedTasks[j].err == InterruptAndRerun ==> inList(completedTasks[j].nodeKey, *interruptRerunNodes))
+//@   ensures[after_recorded] err == nil ==> forall(j int :: 0 <= j && j < len(completedTasks) && completedTasks[j].err == nil && inList(completedTasks[j].nodeKey, r.interruptAfterNodes) ==> inList(completedTasks[j].nodeKey, *interruptAfterNodes))
+//@   ensures[disjoint] disjointLists(*interruptRerunNodes, *interruptAfterNodes)
+//@   loop 1:
+//@     modifies map(subGraphInterrupts), *interruptRerunNodes, *interruptAfterNodes, elems(*interruptRerunNodes), elems(*interruptAfterNodes), fresh()
+//@     invariant[idx] 0 <= i && i <= len(completedTasks)
+//@     invariant[disjoint] disjointLists(*interruptRerunNodes, *interruptAfterNodes) && disjointLists(*interruptRerunNodes, r.interruptAfterNodes) && disjointLists(*interruptAfterNodes, r.interruptAfterNodes)
+//@     invariant[lists_where] (sameArray(*interruptRerunNodes, old(*interruptRerunNodes)) || fresh(*interruptRerunNodes)) && (sameArray(*interruptAfterNodes, old(*interruptAfterNodes)) || fresh(*interruptAfterNodes))
+//@     invariant[no_plain] forall(j int :: 0 <= j && j < i ==> !(plainError(completedTasks[j].err) && completedTasks[j].err != InterruptAndRerun))
+//@     invariant[subgraph_recorded] forall(j int :: 0 <= j && j < i && isSubInt(completedTasks[j].err) ==> in(completedTasks[j].nodeKey, subGraphInterrupts))
+//@     invariant[rerun_recorded] forall(j int :: 0 <= j && j < i && completedTasks[j].err == InterruptAndRerun ==> inList(completedTasks[j].nodeKey, *interruptRerunNodes))
+//@     invariant[after_recorded] forall(j int :: 0 <= j && j < i && completedTasks[j].err == nil && inList(completedTasks[j].nodeKey, r.interruptAfterNodes) ==> inList(completedTasks[j].nodeKey, *interruptAfterNodes))
+//@   loop 2:
+//@     modifies *interruptAfterNodes, elems(*interruptAfterNodes)
+//@     invariant[unchanged] *interruptAfterNodes == pre(*interruptAfterNodes) && forall(m int :: 0 <= m && m < len(*interruptAfterNodes) ==> (*interruptAfterNodes)[m] == pre((*interruptAfterNodes)[m]))
+//@     invariant[nomatch] forall(m int :: 0 <= m && m < $i ==> r.interruptAfterNodes[m] != completedTasks[i].nodeKey)
